@@ -16,7 +16,7 @@ from fractions import Fraction
 from pathlib import Path
 
 VERIF = Path(__file__).resolve().parent.parent
-LEAN = VERIF / "lean"
+LEAN = Path(os.environ.get("VERIF_LEAN_DIR", VERIF / "lean"))     # overridable so that scratch runs on seeded changes can use their own copy of the Lean project
 REPO = Path(os.environ.get("VERIF_REPO", "/repo"))
 EVID = Path(os.environ.get("VERIF_EVIDENCE_DIR", VERIF / "evidence"))     # overridable for scratch runs on seeded changes
 REPLAYS = Path(os.environ.get("VERIF_REPLAY_DIR", VERIF / "replays"))
